@@ -57,6 +57,12 @@ func bedTruncate(it bedItem) bedItem {
 func bedRead(data []byte) (items []bedItem, panicked bool) {
 	items = []bedItem{}
 	panicked, _ = catch(func() {
+		if failedReadsFirst {
+			for _, t := range malformedTexts["bed"] {
+				for range bed.Reader(strings.NewReader(t)) {
+				}
+			}
+		}
 		for b, err := range bed.Reader(deliver(data)) {
 			if err != nil {
 				items = append(items, bedErrItem)
@@ -226,6 +232,7 @@ func bedDrive(args []string) error {
 		}
 		r := newRand(int64(sid) + 4000)
 		readDelivery = []int{0, 0, 1, 0, 2, 3}[sid%6]
+		failedReadsFirst = sid%3 == 2
 		n := 3 + sid%10
 		nrec := 1 + r.Intn(20)
 		if sid%5 == 0 {
